@@ -86,6 +86,7 @@ fn main() {
             s.exit
         }
         "c12-exec" => c12::exec_child(),
+        "c13-fresh" => c13::fresh_child(),
         "c12-evidence" => {
             c12::write_evidence(&tier);
             0
